@@ -216,7 +216,10 @@ def env_program(s, kind, shadow):
     inner = program(s, kind, NEUTRAL, with_check=False)
     sh = ''
     for n in shadow:
-        if n in ENV_METHODS:
+        if n == 'x:macros':
+            from .common import DECOY_MACROS
+            sh += DECOY_MACROS
+        elif n in ENV_METHODS:
             sh += '    %s\n' % ENV_METHODS[n]
         elif n in ENV_MODS:
             sh += '    pub mod %s {}\n' % n
@@ -309,6 +312,8 @@ def check(v, tier):
             cases.append(Case('C19|env|ALLMETHODS|%s|%s' % (kind, s), env_program(s, kind, sorted(m for m in ENV_METHODS if m != 'm:builder')), {'env': 'all method traits (except the builder methods, which have a state of their own)', 'set': s}, expect='accept', run=True, depth=2))
             cases.append(Case('C19|env|ALL|%s|%s' % (kind, s), env_program(s, kind, ENV_NAMES + ENV_MODS), {'env': 'all', 'set': s}, expect='accept', run=True, depth=2))
             cases.append(Case('C19|env|none|%s|%s' % (kind, s), env_program(s, kind, []), {'env': [], 'set': s}, expect='accept', run=True, depth=0))
+            # macro namespace: 26 std macros shadowed by `macro_rules!` definitions in the textual scope of the derive (not `stringify!` / `unreachable!`, which the templates call unqualified)
+            cases.append(Case('C19|env|x:macros|%s|%s' % (kind, s), env_program(s, kind, ['x:macros']), {'env': 'macro_rules! decoys of 26 std macros', 'set': s}, expect='accept', run=True, depth=1))
     from .common import run_behavioural
     run_behavioural(v, cases, 'C19', nontrivial_min=1, min_nontrivial_ratio=0.5, shard_size=300)
     # #![no_std]: every trait set on every shape in one crate that does not link std
